@@ -119,6 +119,14 @@ func (w *world) buildK() error {
 		return err
 	}
 
+	if err := os.Mkdir(w.R+"/dd", 0o755); err != nil {
+		return err
+	}
+
+	if err := os.WriteFile(w.R+"/dd/f", []byte("DDF"), 0o644); err != nil {
+		return err
+	}
+
 	for _, l := range w.links {
 		t := w.expand(l.Target)
 		if w.alt {
@@ -159,7 +167,9 @@ func (w *world) buildV() (res fsx.Res) {
 		if !step("MkdirAll(R)", v.MkdirAll(w.R, 0o755)) ||
 			!step("Mkdir(R/d)", v.Mkdir(w.R+"/d", 0o755)) ||
 			!step("WriteFile(R/d/f)", v.WriteFile(w.R+"/d/f", []byte("DF"), 0o644)) ||
-			!step("WriteFile(R/f)", v.WriteFile(w.R+"/f", []byte("F"), 0o644)) {
+			!step("WriteFile(R/f)", v.WriteFile(w.R+"/f", []byte("F"), 0o644)) ||
+			!step("Mkdir(R/dd)", v.Mkdir(w.R+"/dd", 0o755)) ||
+			!step("WriteFile(R/dd/f)", v.WriteFile(w.R+"/dd/f", []byte("DDF"), 0o644)) {
 			return
 		}
 
